@@ -58,6 +58,17 @@ package rapid
 //@   lock s.runtimeDomainExitedMutex
 //@   protects agentsAwaitingExit
 
+// the table of exit channels (one per launched process of the current generation), under the mutex of the shutdown context
+//@ func (*shutdownContext).getExitedChannel
+//@   requires s != nil
+//@   modifies nothing
+//@   ensures [what-the-table-says] (r1 <==> old(has(s.runtimeDomainExited, name))) && (r1 ==> r0 == old(s.runtimeDomainExited[name]))
+//@ func (*shutdownContext).createExitedChannel
+//@   requires s != nil
+//@   ensures [only-that-entry-is-added] has(s.runtimeDomainExited, name) && (forall k string :: k != name ==> (has(s.runtimeDomainExited, k) <==> old(has(s.runtimeDomainExited, k))) && (has(s.runtimeDomainExited, k) ==> s.runtimeDomainExited[k] == old(s.runtimeDomainExited[k])))
+//@ func (*shutdownContext).forgetExitedChannel
+//@   requires s != nil
+//@   ensures [only-that-entry-is-removed] !has(s.runtimeDomainExited, name) && (forall k string :: k != name ==> (has(s.runtimeDomainExited, k) <==> old(has(s.runtimeDomainExited, k))) && (has(s.runtimeDomainExited, k) ==> s.runtimeDomainExited[k] == old(s.runtimeDomainExited[k])))
 // the events watcher's handler of one exit: looks the extension up among those awaiting their exit, closes the exit channel
 //@ event ExitChannelClosedFor = call rapid.(*shutdownContext).getExitedChannel
 //@ event ExitChannelClosed = close local:rapid.(*shutdownContext).handleProcessExit.exitedChannel
